@@ -13,6 +13,8 @@ structure D where
   gp : Nat := 0
   txs : List Tx := []       -- candidates of the block being described, newest first
   dedup : Bool := true
+  rf : Option RewardFacts := none   -- the `reward` line of the block being described
+  votesLast : Bool := true
 
 def parseSigners (s : String) : Option (Option (List Nat)) :=
   if s == "!" then some none
@@ -57,6 +59,26 @@ def dump (d : D) (s : St) : String :=
 
 def joinC (l : List String) : String := ",".intercalate l
 
+/-- "-" = empty, else comma separated naturals -/
+def parseNatList (s : String) : Option (List Nat) :=
+  if s == "-" then some []
+  else
+    let parts := s.splitOn ","
+    let ns := parts.filterMap (·.toNat?)
+    if ns.length == parts.length then some ns else none
+
+/-- "-" = empty, else comma separated `miner:votes` -/
+def parseNodes (s : String) : Option (List (Nat × Int)) :=
+  if s == "-" then some []
+  else
+    (s.splitOn ",").foldr (fun x acc =>
+      match acc, x.splitOn ":" with
+      | some r, [a, v] =>
+        match a.toNat?, parseInt? v with
+        | some a, some v => some ((a, v) :: r)
+        | _, _ => none
+      | _, _ => none) (some [])
+
 def insertSorted (x : Nat) : List Nat → List Nat
   | [] => [x]
   | y :: ys => if x ≤ y then x :: y :: ys else y :: insertSorted x ys
@@ -67,14 +89,17 @@ def step (d : D) (w : List String) : D × String :=
     if LemoModel.HashFacts.covers fn field == (bit == "1") && LemoModel.HashFacts.fields.contains field
     then (d, "ok") else (d, "table-mismatch")
   | ["hashfns", n] => (d, if n == toString LemoModel.HashFacts.expected.length then "ok" else "table-mismatch")
-  | ["params", vr, dr, md, td, idur, pool] =>
-    match parseInt? vr, parseInt? dr, parseInt? md, td.toNat?, idur.toNat?, pool.toNat? with
-    | some vr, some dr, some md, some td, some idur, some pool =>
-      ({ d with p := { voteRate := vr, depositRate := dr, minDeposit := md, termDuration := td, interimDuration := idur, pool := pool } }, "ok")
-    | _, _, _, _, _, _ => (d, "bad-op")
+  | ["reset"] => ({ d with accts := fun _ => {}, univ := [], txs := [], rf := none }, "ok")
+  | ["params", vr, dr, md, td, idur, pool, prec] =>
+    match parseInt? vr, parseInt? dr, parseInt? md, td.toNat?, idur.toNat?, pool.toNat?, parseInt? prec with
+    | some vr, some dr, some md, some td, some idur, some pool, some prec =>
+      ({ d with p := { voteRate := vr, depositRate := dr, minDeposit := md, termDuration := td, interimDuration := idur, pool := pool,
+                       rewardPrecision := prec } }, "ok")
+    | _, _, _, _, _, _, _ => (d, "bad-op")
   | "universe" :: ls =>
     ({ d with univ := ls.filterMap (·.toNat?) }, "ok")
   | ["mode", "legacy-signers"] => ({ d with dedup := false }, "ok")
+  | ["mode", "votes-before-reward"] => ({ d with votesLast := false }, "ok")
   | ["acct", l, bal, votes, vf, ic, dep, inc, isDep] =>
     match l.toNat?, parseInt? bal, parseInt? votes, vf.toNat?, ic.toNat?, inc.toNat?, isDep.toNat? with
     | some l, some bal, some votes, some vf, some ic, some inc, some isDep =>
@@ -85,9 +110,16 @@ def step (d : D) (w : List String) : D × String :=
     match l.toNat?, parsePairs rest with
     | some l, some ps => ({ d with accts := upd d.accts l { d.accts l with signers := ps } }, "ok")
     | _, _ => (d, "bad-op")
-  | ["block", h, m, gl] =>
-    match h.toNat?, m.toNat?, gl.toNat? with
-    | some h, some m, some gl => ({ d with height := h, miner := m, gp := gl, txs := [] }, "ok")
+  | ["block", h, m, gl, deps] =>
+    -- deps: the universe accounts whose registered node is a deputy at this height (IsNodeDeputy)
+    match h.toNat?, m.toNat?, gl.toNat?, parseNatList deps with
+    | some h, some m, some gl, some deps =>
+      let accts := fun a => if d.univ.contains a then { d.accts a with isDeputy := deps.contains a } else d.accts a
+      ({ d with height := h, miner := m, gp := gl, txs := [], rf := none, accts := accts }, "ok")
+    | _, _, _, _ => (d, "bad-op")
+  | ["reward", total, nodes, refunds] =>
+    match parseInt? total, parseNodes nodes, parseNatList refunds with
+    | some total, some nodes, some refunds => ({ d with rf := some { total := total, nodes := nodes, refunds := refunds } }, "ok")
     | _, _, _ => (d, "bad-op")
   | "tx" :: rest =>
     match parseTx rest with
@@ -98,14 +130,18 @@ def step (d : D) (w : List String) : D × String :=
     | some t, b :: bs => ({ d with txs := { b with subs := b.subs ++ [t] } :: bs }, "ok")
     | _, _ => (d, "bad-op")
   | ["end"] =>
-    let c : Ctx := { p := d.p, miner := d.miner, height := d.height, dedup := d.dedup }
+    let c : Ctx := { p := d.p, miner := d.miner, height := d.height, dedup := d.dedup, rf := d.rf.getD {}, votesLast := d.votesLast }
+    -- the reward facts must be given exactly at the heights the GENERATED IsRewardBlock names
+    if isRewardBlock c != d.rf.isSome then (d, "reward-schedule-mismatch") else
     let s0 : St := { accts := d.accts }
+    let r := mine c s0 d.gp d.txs.reverse
+    if finalizePanics c (chargeForGas r.st c.miner r.fee) then (d, "panic") else
     let (s, sel, inv, g) := mineBlock c s0 d.gp d.txs.reverse d.univ
     -- a negative final vote count cannot be RLP-encoded: the real assembler panics when it seals the block
     if d.univ.any (fun a => decide ((s.accts a).votes < 0)) then (d, "panic") else
     let selS := joinC (sel.map fun (i, g) => s!"{i}:{g}")
     let invS := joinC ((inv.foldl (fun acc (i, _) => insertSorted i acc) []).map toString)
-    ({ d with accts := s.accts, txs := [] }, s!"sel={selS} inv={invS} gas={g} | {dump d s}")
+    ({ d with accts := s.accts, txs := [], rf := none }, s!"sel={selS} inv={invS} gas={g} | {dump d s}")
   | _ => (d, "bad-op")
 
 end Driver.C05
